@@ -1437,6 +1437,18 @@ func (e *nestEnv) opCommitReload() {
 		}
 		rootVal = m
 	}
+	// C09 / C03: what the ledger holds after the commit is exactly the live trees (no stale register,
+	// nothing missing), judged on a brand-new storage that has seen none of the history
+	for _, id := range e.ledger.SortedIDs() { // the health check judges the loaded slabs: load every register
+		if _, _, err := fresh.Retrieve(id); err != nil {
+			e.violation("C03", fmt.Sprintf("register %s written by the commit cannot be read back: %v", hx.IDStr(id), err))
+		}
+	}
+	if _, err := atree.CheckStorageHealth(fresh, 1+len(e.detached)); err != nil {
+		for _, p := range []string{"C09", "C03"} {
+			e.violation(p, "after commit, the registers seen by a fresh storage are not exactly the live trees: "+err.Error())
+		}
+	}
 	n := len(e.st.Violations)
 	e.compareValue("reloaded", rootVal, sval{child: e.root})
 	if len(e.st.Violations) > n {
